@@ -26,6 +26,16 @@ pub enum RB<T> {
     Mixed(SB<T>, SB<T>),
 }
 
+impl<T: Flt> SB<T> {
+    pub fn scaled(&self, d1: T, d2: T) -> SB<T> {
+        match self {
+            SB::FirstDeriv(v) => SB::FirstDeriv(*v * d1),
+            SB::SecondDeriv(v) => SB::SecondDeriv(*v * d2),
+            o => o.clone(),
+        }
+    }
+}
+
 /// whole data set
 #[derive(Clone, Debug, PartialEq)]
 pub enum Bound<T> {
@@ -260,6 +270,20 @@ pub struct Spec1<T> {
     /// all lanes are equal and (with view storage) the data is handed over as a broadcast view of
     /// lane 0: zero strides on the lane axes
     pub broadcast_lanes: bool,
+}
+
+impl<T: Flt> Bound<T> {
+    /// boundary derivative values converted to other units: first derivatives * d1, second
+    /// derivatives * d2
+    pub fn scaled(&self, d1: T, d2: T) -> Bound<T> {
+        match self {
+            Bound::Individual(a) => Bound::Individual(a.mapv(|r| match r {
+                RB::Mixed(l, r) => RB::Mixed(l.scaled(d1, d2), r.scaled(d1, d2)),
+                o => o,
+            })),
+            o => o.clone(),
+        }
+    }
 }
 
 impl<T: Flt> Spec1<T> {
